@@ -7,14 +7,14 @@ WT=$1; NAME=$2
 export GOFLAGS=-mod=mod GOPROXY=off GOSUMDB=off GOTOOLCHAIN=local
 cd "$WT" || exit 2
 [ -f SEED/patch.diff ] && [ -f SEED/meta.json ] || { echo "no SEED/patch.diff or meta.json"; exit 2; }
-demo_path=$(jq -r .demo_path SEED/meta.json); demo_cmd=$(jq -r .demo_cmd SEED/meta.json)
+demo_path=$(jq -r .demo_path SEED/meta.json | awk "{print \$1}"); demo_cmd=$(jq -r .demo_cmd SEED/meta.json)
 demo_src=$(ls SEED/*_test.go SEED/*.go 2>/dev/null | head -1)
 git checkout -q -- . ; git clean -fdq -e SEED -e SEED_TASK.md
 git apply SEED/patch.diff || { echo "patch does not apply"; exit 2; }
 pkgs=$(git diff --name-only | grep '\.go$' | xargs -n1 dirname | sort -u | sed 's#^#./#')
 echo "== existing tests with the change: $pkgs"
 go build ./... || { echo "RESULT: does not compile"; exit 1; }
-go test -vet=off -count=1 $pkgs 2>&1 | tail -15 > /tmp/confirm-$NAME-existing.log; cat /tmp/confirm-$NAME-existing.log
+python3 /verif/tools/baselinecheck.py "$WT" $pkgs > /tmp/confirm-$NAME-existing.log 2>&1; base=$?; tail -6 /tmp/confirm-$NAME-existing.log
 cp "$demo_src" "$demo_path"
 echo "== demo WITH change (must fail): $demo_cmd"
 ( eval "$demo_cmd" ) > /tmp/confirm-$NAME-with.log 2>&1; with=$?
@@ -25,7 +25,8 @@ echo "== demo WITHOUT change (must pass)"
 tail -3 /tmp/confirm-$NAME-without.log
 rm -f "$demo_path"
 echo "with=$with without=$without"
-if [ $with -ne 0 ] && [ $without -eq 0 ]; then
+echo "baseline_stable_tests_rc=$base"
+if [ $with -ne 0 ] && [ $without -eq 0 ] && [ $base -eq 0 ]; then
   D=/verif/seeded/$NAME; mkdir -p "$D"
   cp SEED/patch.diff SEED/meta.json "$demo_src" "$D/"
   echo "CONFIRMED -> $D"
